@@ -172,14 +172,15 @@ inline void checkRoundTripDoc(Ctx& C, const MValue& m, int sto) {
 }
 
 // ---- X: JSON text -> doc_A -> MessagePack -> doc_B; doc_A == doc_B
-inline void runCross(Ctx& C, int N) {
+// exactOnly: only the trees with exactly N nodes (the smaller ones were covered by a previous pass)
+inline void runCross(Ctx& C, int N, int deepFrom, bool exactOnly) {
   TreeGen G;
   G.leavesTop = ix_valid::leafAlphabet(false);
   G.leavesDeep = ix_valid::leafAlphabet(true);
-  G.deepFrom = N >= 4 ? 2 : 3;
+  G.deepFrom = deepFrom;
   G.keys = ix_valid::keyAlphabet();
   G.dupKeys = true;
-  G.upTo(N, [&](const MValue& tree) {
+  auto sink = [&](const MValue& tree) {
     if (C.expired()) return;
     if (!C.take()) return;
     refjson::PrintOpt po;
@@ -212,9 +213,12 @@ inline void runCross(Ctx& C, int N) {
     if (hasContainer(tree) || tree.kind == MValue::Str || tree.isNumber()) C.nontrivial();
     C.outcome(std::string("X:") + kindName(tree) + (sameStorage ? " same-observation" : " number-storage-changed"));
     C.end();
-  });
-  C.bound("X: every JSON text printed by the reference printer from all trees with <= " + std::to_string(N) + " nodes over the C01 alphabets (" +
-          std::to_string(G.leavesTop.size()) + " leaves, " + std::to_string(G.keys.size()) + " keys with repetition)");
+  };
+  if (exactOnly) G.exact(N, 0, sink);
+  else G.upTo(N, sink);
+  C.bound(std::string("X: every JSON text printed by the reference printer from all trees with ") + (exactOnly ? "exactly " : "<= ") + std::to_string(N) +
+          " nodes over the C01 alphabets (" + std::to_string(G.leavesTop.size()) + " leaves, " + std::to_string(G.leavesDeep.size()) + " at depth >= " +
+          std::to_string(deepFrom) + ", " + std::to_string(G.keys.size()) + " keys with repetition)");
 }
 
 inline void runRoundTrip(Ctx& C) {
@@ -254,7 +258,8 @@ inline void runRoundTrip(Ctx& C) {
     checkRoundTripDoc(C, a, 0);
   }
   for (auto& b : bounds) C.bound("J, M: " + b + "; strings of 30..33, 255..257, 65534, 65535 bytes; containers of 15, 16, 17, 300 children");
-  runCross(C, atoi(C.opt("xnodes", T ? "4" : "3").c_str()));
+  runCross(C, atoi(C.opt("xnodes", "3").c_str()), 3, false);
+  if (T) runCross(C, 4, 1, true);
 }
 
 }  // namespace dx
